@@ -158,6 +158,11 @@ func (ex *Exec) mapFind(m *MapObj, k Value) (string, bool) {
 		}
 		return "", false
 	}
+	if kt, ok := k.(*Term); ok && kt.S.K == KBV && len(m.m) > 8 {
+		if sk, found, handled := ex.mapFindScalar(m, kt); handled {
+			return sk, found
+		}
+	}
 	for _, sk := range m.sortedKeys() {
 		eq := ex.valueEq(k, m.m[sk].key)
 		if eq.Op == OConst && eq.C == 0 {
@@ -168,6 +173,63 @@ func (ex *Exec) mapFind(m *MapObj, k Value) (string, bool) {
 		}
 	}
 	return "", false
+}
+
+const noKeySentinel = int64(-0x7eadbeefcafe1234)
+
+// mapFindScalar looks a symbolic integer key up in a map with concrete integer keys: the
+// solver enumerates the keys the symbol can equal (one query per feasible key) instead of
+// branching on every entry.
+func (ex *Exec) mapFindScalar(m *MapObj, k *Term) (string, bool, bool) {
+	st := ex.st
+	byVal := map[int64]string{}
+	var any *Term = st.False
+	for _, sk := range m.sortedKeys() {
+		kt, ok := m.m[sk].key.(*Term)
+		if !ok || kt.Op != OConst || kt.S != k.S {
+			return "", false, false
+		}
+		byVal[kt.I()] = sk
+		any = st.Or(any, st.Eq(k, kt))
+	}
+	d := ex.memo(func() int64 {
+		var vals []int64
+		excl := []*Term{any}
+		for {
+			if ex.check(excl...) != Sat {
+				break
+			}
+			v, ok := ex.sol.Value(k)
+			if !ok {
+				break
+			}
+			sv := sx(v, k.S.W)
+			if _, isKey := byVal[sv]; !isKey {
+				break
+			}
+			vals = append(vals, sv)
+			excl = append(excl, st.Not(st.Eq(k, st.BV(k.S.W, v))))
+		}
+		none := ex.check(st.Not(any)) != Unsat
+		var alts []int64
+		alts = append(alts, vals...)
+		if none {
+			alts = append(alts, noKeySentinel)
+		}
+		if len(alts) == 0 {
+			ex.end("infeasible", "map lookup: no feasible case")
+		}
+		for i := len(alts) - 1; i >= 1; i-- {
+			ex.enqueueAlt(alts[i])
+		}
+		return alts[0]
+	})
+	if d == noKeySentinel {
+		ex.assert(st.Not(any))
+		return "", false, true
+	}
+	ex.assert(st.Eq(k, st.BVs(k.S.W, d)))
+	return byVal[d], true, true
 }
 
 // mapKey returns the storage key string to use for k (existing entry or a fresh one).
